@@ -181,6 +181,9 @@ def sender_case(ctx, seed, idx):
     for i in range(n):
         sig, build, nfd = r.choice(SHAPES)
         toks = [Tok(i, k) for k in range(nfd)]
+        if nfd > 1 and r.random() < 0.35:
+            toks = [toks[0]] * nfd           # the same descriptor passed for every 'h' argument: still n transmissions
+            ctx.count('repeated_descriptor_messages')
         it = iter(toks)
         body = build(it, 'c%d' % i)
         # structs may be tuples, arrays lists
